@@ -475,6 +475,14 @@ class FS:
     def snapshot(self):
         return dict(self.files)
 
+    def replace_external(self, key, content):
+        """the file is replaced from outside the code under test (os.replace of a temporary file, another process)"""
+        self.files[key] = content
+        self.log.append(('external', key))
+
+    def version(self, key):
+        return sum(1 for e in self.log if e[0] in ('write', 'external') and e[1] == key) + sum(1 for e in self.log if e[0] == 'open' and e[1] == key and ('w' in str(e[2]) or 'os.open' in str(e[2])))
+
 
 def path_key(p):
     if isinstance(p, str):
@@ -696,7 +704,38 @@ def sp_fdopen(it, fr, fd, mode='r', *a, **kw):
     return f
 
 
+def sp_os_stat(it, fr, path, *a, **kw):
+    used('os.stat()/os.path.exists()/getsize()/getmtime(): in-memory file system; every write or outside replacement gives a strictly later modification time, sizes are free positive integers per file version')
+    import types as _t
+    path = fr.split(path)
+    fs = get_fs(it)
+    key = path_key(path)
+    if isinstance(fs.files.get(key), SAny):
+        fs.files[key] = fr.split(fs.files[key])
+    if fs.files.get(key) is None:
+        raise PyExc(FileNotFoundError(2, 'No such file or directory', key))
+    v = fs.version(key)
+    mt = [z3.Int(f'mtime#{key}#{i}') for i in range(v + 1)]
+    sz = z3.Int(f'size#{key}#{v}')
+    it.eng.domain(('stat', key, v), z3.And(sz >= 0, mt[0] >= 0, *[mt[i + 1] > mt[i] for i in range(v)]))
+    return _t.SimpleNamespace(st_mtime_ns=SInt(mt[v]), st_size=SInt(sz), st_mode=0o100644, st_mtime=SInt(mt[v]), st_ino=1, st_dev=1, st_nlink=1, st_uid=0, st_gid=0)
+
+
+def sp_path_exists(it, fr, path):
+    path = fr.split(path)
+    fs = get_fs(it)
+    key = path_key(path)
+    if isinstance(fs.files.get(key), SAny):
+        fs.files[key] = fr.split(fs.files[key])
+    return fs.files.get(key) is not None
+
+
 import os as _os
+SPECIAL[_os.stat] = sp_os_stat
+SPECIAL[_os.path.exists] = sp_path_exists
+SPECIAL[_os.path.isfile] = sp_path_exists
+SPECIAL[_os.path.getsize] = lambda it, fr, p: sp_os_stat(it, fr, p).st_size
+SPECIAL[_os.path.getmtime] = lambda it, fr, p: sp_os_stat(it, fr, p).st_mtime
 SPECIAL[_os.open] = sp_os_open
 SPECIAL[_os.fdopen] = sp_fdopen
 
